@@ -62,6 +62,12 @@ _mk("C13", "C13: both entry points test the system's generable before the first 
     "CFG dominance, linear normal form of the loop test, reaching-definition identity of tested / accumulated / yielded molecule")
 _mk("C14", "C14 (one information-flow condition): the backward slice of the component pick's probability vector must contain a mass-aware source (violated today: known finding KF-1, System.generator), and independently must contain every component's declared share, normalised and index-aligned. Convergence itself is statistical and NOT decided.",
     "backward slice (provenance) of the p= argument of the component pick")
+_mk("C09", "C09 (declaration → sampler wiring only): written name selects the class of that name, each text position reaches the sampler in its documented role (gauss loc/scale, uniform loc/high−low, schulz_zimm z=Mn/(Mw−Mn) & Mn, log_normal M/D, poisson mu, flory_schulz a), rvs/cdf/pmf share parameters, one unshared draw per object. The statistical law of block sizes is NOT decided.",
+    "writer/reader table agreement, symbolic dataflow from text positions to sampler keyword roles, sibling agreement of call keywords")
+_mk("C11", "C11 (coherence of the wiring): identical shape parameters for rvs / both cdf / pmf-pdf on the same object, interval = cdf(value) − cdf(previous) with `previous` read before the addition, unknown names cannot fall through, text form ↔ parameters. Normalisation, support, means and sampler failures are NOT decided.",
+    "sibling agreement of call keywords, def-use order in the interval accumulator, CFG exit analysis of the dispatcher")
+_mk("C12", "C12 (algebra and guards): the three derived assignments of the linked setters normalise to the one relation 100·absolute = relative·system, remainder rule (definition, branch, targets), system-mass propagation to every component on the generable path, the two under-determined paths, range / consistency guards. Values over the configuration space are NOT decided.",
+    "rational-monomial normal form of assignments, CFG dominance / loop-completion queries, guard-formula implication")
 
 NOT_APPLICABLE = {}
 for _i in range(1, 21):
